@@ -297,7 +297,7 @@ func PutVmsa(v *spb.VmcbSaveArea, data []byte) error {
 	binary.LittleEndian.PutUint64(data[0x3A0:0x3A8], v.SwExitInfo_2)
 	binary.LittleEndian.PutUint64(data[0x3A8:0x3B0], v.SwScratch)
 	binary.LittleEndian.PutUint64(data[0x3B0:0x3B8], v.SevFeatures)
-	if err := doReserved("reserved_11", v.Reserved_11, data, 0x3B8, 0x3F0); err != nil {
+	if err := doReserved("reserved_11", v.Reserved_11, data, 0x3B8, 0x3E8); err != nil {
 		return err
 	}
 	binary.LittleEndian.PutUint64(data[0x3E8:0x3F0], v.Xcr0)
